@@ -30,9 +30,10 @@ ExpVals(vs, next, acc) ==
 NonIntBases == {"bool", "f32", "S", "X", "ptr"}
 HelperS == TypeDef("S", "pub", <<Field("v", "pub", <<>>, TNm("u16"), None, FALSE)>>)
 
-MkInput(ptr, base, vals, mark, defaultable) ==
+MkInput(ptr, base, vals, mark, defaultable, vdoc) ==
   LET n == Len(vals)
-      vs == [i \in 1..n |-> Variant(VarNames[i], vals[i], mark = i \/ (mark = 9 /\ i <= 2))]
+      vs == [i \in 1..n |-> [Variant(VarNames[i], vals[i], mark = i \/ (mark = 9 /\ i <= 2))
+                               EXCEPT !.doc = IF vdoc THEN <<" case " \o VarNames[i]>> ELSE <<>>]]
       bty == IF base = "ptr" THEN TCPtr(TNm("u8")) ELSE TNm(base)
       E == [EnumDef("E", "pub", bty, vs) EXCEPT !.defaultable = defaultable, !.copyable = TRUE]
   IN [ptr |-> ptr,
@@ -42,16 +43,18 @@ MkInput(ptr, base, vals, mark, defaultable) ==
 ValSeqs(base) == UNION {[1..n -> {v \in Boundary(base) : Spellable(v)}] : n \in 1..MaxVars}
 
 MCInit ==
-  /\ \/ \E ptr \in Ptrs, base \in Bases, mark \in Markers, defaultable \in BOOLEAN :
+  /\ \/ \E ptr \in Ptrs, base \in Bases, mark \in Markers, defaultable \in BOOLEAN, vdoc \in BOOLEAN :
           \E vals \in ValSeqs(base) :
              /\ mark \in {0, 9} \/ mark <= Len(vals)
              /\ (mark = 9 => Len(vals) >= 2)
              (* Rust (unlike C++) has no duplicate discriminants: outside the fragment *)
              /\ LET e == ExpVals([i \in DOMAIN vals |-> Variant("x", vals[i], FALSE)], NumInt(0), <<>>)
                 IN \A i, j \in DOMAIN e : i # j => e[i] # e[j]
-             /\ input = MkInput(ptr, base, vals, mark, defaultable)
+             (* documented variants together with the default marker (a doc comment is an attribute too) *)
+             /\ (vdoc => mark # 0)
+             /\ input = MkInput(ptr, base, vals, mark, defaultable, vdoc)
      \/ \E ptr \in Ptrs, base \in NonIntBases, nv \in 1..2 :
-          input = MkInput(ptr, base, [i \in 1..nv |-> NumNone], 0, FALSE)
+          input = MkInput(ptr, base, [i \in 1..nv |-> NumNone], 0, FALSE, FALSE)
   /\ InitRest
 
 MCSpec == MCInit /\ [][Next]_vars /\ WF_vars(Next)
